@@ -154,7 +154,10 @@ func (g *G) IGMPv3Rep() Proto {
 type DHCPMsg struct {
 	Val  *protocol.DHCP
 	Wire []byte
-	Opts [][2]any // (tag, data) in order, for field-wise comparison
+	Opts [][2]any // (tag, data) in order up to the first END, for field-wise comparison with a decoded value
+	// Read: the prefix of Wire a decoder reads (up to and including the first END);
+	// bytes behind it are filler that a decoded value does not carry
+	Read int
 }
 
 func (g *G) DHCP() DHCPMsg {
@@ -216,12 +219,32 @@ func (g *G) DHCP() DHCPMsg {
 		m.Opts = append(m.Opts, po)
 	}
 	n := g.ListLen("dhcp_nopts", 12)
+	ended := false // an END option has been written: what follows is on the wire but no decoder reads it
 	for i := 0; i < n; i++ {
 		tag := byte(g.Int("dhcp_tag", 0, 254))
+		if !ended && i > 0 && g.Chance("dhcp_end_inside", 1, 12) {
+			// END followed by more options: RFC 2132 3.2 has the sender fill up with PAD
+			// after END (BOOTP relays want 300 bytes); other options behind it are legal
+			// bytes too, just never read
+			d.Options = append(d.Options, protocol.DHCPNewOption(255, nil))
+			w = append(w, 255)
+			ended = true
+			m.Read = len(w)
+			g.Label("dhcp_end_not_last")
+			if g.Chance("dhcp_pad_fill", 2, 3) {
+				for k := g.Int("dhcp_fill", 1, 60); k > 0; k-- {
+					d.Options = append(d.Options, protocol.DHCPNewOption(0, []byte{}))
+					w = append(w, 0)
+				}
+				break
+			}
+		}
 		if tag == 0 {
 			d.Options = append(d.Options, protocol.DHCPNewOption(0, []byte{}))
 			w = append(w, 0)
-			m.Opts = append(m.Opts, [2]any{tag, []byte{}})
+			if !ended {
+				m.Opts = append(m.Opts, [2]any{tag, []byte{}})
+			}
 			g.Label("dhcp_pad_option")
 			continue
 		}
@@ -229,13 +252,18 @@ func (g *G) DHCP() DHCPMsg {
 		d.Options = append(d.Options, protocol.DHCPNewOption(tag, cp(data)))
 		w = append(w, tag, byte(len(data)))
 		w = append(w, data...)
-		m.Opts = append(m.Opts, [2]any{tag, data})
+		if !ended {
+			m.Opts = append(m.Opts, [2]any{tag, data})
+		}
 	}
-	if g.Bool("dhcp_explicit_end") {
-		d.Options = append(d.Options, protocol.DHCPNewOption(255, nil))
-		g.Label("dhcp_explicit_end")
+	if !ended {
+		if g.Bool("dhcp_explicit_end") {
+			d.Options = append(d.Options, protocol.DHCPNewOption(255, nil))
+			g.Label("dhcp_explicit_end")
+		}
+		w = append(w, 255)
+		m.Read = len(w)
 	}
-	w = append(w, 255)
 	m.Wire = w
 	return m
 }
